@@ -62,8 +62,10 @@ def _fix(spec):
 
 @st.composite
 def _case(draw):
-    seed = draw(st.one_of(st.integers(0, 2 ** 64), st.integers(0, 10), st.text(max_size=5),
-                          st.binary(max_size=5)))
+    seed = draw(st.one_of(st.integers(0, 2 ** 64), st.integers(-10, 10), st.text(max_size=5),
+                          st.binary(max_size=5),
+                          # floats, also ones equal to an int seed used elsewhere in the same interpreter (-3 / -3.0)
+                          st.integers(-10, 10).map(float), st.sampled_from([0.5, 2.0 ** 64, 1e300, -0.0])))
     neg = st.sampled_from(_NEG).map(lambda p: {"t": "str", "pattern": p})
     pat = regexgen.cheap_pattern_strategy(3).map(lambda p: {"t": "str", "pattern": regexgen.render(p)})
     gen = specs.spec_strategy(depth=draw(st.sampled_from([0, 1, 2])), sat=True, derived=draw(st.booleans())).map(_fix)
